@@ -280,6 +280,12 @@ def eq(a, b, ctx):
         # different kinds of values (e.g. int vs str) are unequal in Python
         if (is_numeric(a) and is_strlike(b)) or (is_strlike(a) and is_numeric(b)):
             return False
+    if (type(a) is SOpaque and is_strlike(b)) or (type(b) is SOpaque and is_strlike(a)):
+        # an opaque value compared with a string: equal iff the value is that string - `U!as_str` maps an opaque value to the id of the
+        # string it is (anything else for a non-string; the outcome of the comparison is then unconstrained, which over-approximates)
+        o, st = (a, b) if type(a) is SOpaque else (b, a)
+        from .opaque import ufun, U
+        return ufun("U!as_str", U(), z3.IntSort())(o.t) == str_term(st)
     raise Unsupported(f"== between {a!r} and {b!r}")
 
 
